@@ -233,6 +233,12 @@ template <class T> static void getLine(const std::function<std::string()>& fn) {
 #include <thread>
 #include <random>
 #include <chrono>
+static int g_stack_fill = -1;     // >= 0: overwrite the unused stack below the op loop with this byte before every op, so that
+                                  // a read of an uninitialised local sees a value that differs between two runs (C14)
+static void __attribute__((noinline)) scribble(int b) {
+    volatile char buf[32768];
+    for (size_t i = 0; i < sizeof buf; ++i) buf[i] = (char)b;
+}
 static int g_yield_seed = 0;     // > 0: perturb the schedule with random yields/sleeps between ops (C18)
 
 static int runScript(const char* scriptPath, const char* outPath, int tid) {
@@ -249,6 +255,7 @@ static int runScript(const char* scriptPath, const char* outPath, int tid) {
         std::vector<std::string> t = split(line, ' ');
         const std::string& op = t[0];
         std::fprintf(out, "OP %zu %s\n", n, op.c_str()); std::fflush(out);
+        if (g_stack_fill >= 0) scribble(g_stack_fill);
         if (g_yield_seed > 0) { unsigned k = rng() % 8; if (k == 0) std::this_thread::yield(); else if (k == 1) std::this_thread::sleep_for(std::chrono::microseconds(rng() % 300)); }
         std::string res;
         bool mut = true;
@@ -374,6 +381,7 @@ static int runScript(const char* scriptPath, const char* outPath, int tid) {
 int main(int argc, char** argv) {
     if (argc < 2) { std::fprintf(stderr, "usage: harness <script> [out] | harness --threads <yieldseed> <script> <out> [<script> <out>]...\n"); return 2; }
     signal(SIGXFSZ, SIG_IGN);
+    if (std::getenv("HARNESS_STACK_FILL")) g_stack_fill = std::atoi(std::getenv("HARNESS_STACK_FILL"));
     if (std::string(argv[1]) == "--threads") {
         g_yield_seed = std::atoi(argv[2]);
         std::vector<std::thread> th;
